@@ -81,7 +81,12 @@ func (items ipPairs) Len() int {
 
 // Less compares specified items
 func (items ipPairs) Less(i, j int) bool {
-	return bytes.Compare(items[i].startIP, items[j].startIP) >= 0
+	if c := bytes.Compare(items[i].startIP, items[j].startIP); c != 0 {
+		return c > 0
+	}
+	// same startIP: larger endIP first, so that a real item starting at the
+	// zero address is never sorted behind the zero items left by mergeItems
+	return bytes.Compare(items[i].endIP, items[j].endIP) >= 0
 }
 
 // Swap swaps specified items
